@@ -79,7 +79,10 @@ func genRawSMF(r *Rng) []byte {
 		n := r.Intn(30)
 		ln := n
 		if r.Chance(1, 4) {
-			ln = r.Pick(0, n+1, n+100, 0x7FFFFFFF, 0xFFFFFFFF)
+			// also lengths that are negative as int32 and, added to the position behind the chunk header, land on the
+			// chunk's own header, on the first chunk or on the MThd (a reader that seeks would go backwards)
+			here := len(b) + 4
+			ln = r.Pick(0, n+1, n+100, 0x7FFFFFFF, 0xFFFFFFFF, 0x80000000, 0x80000001, 1<<32-8, 1<<32-here, 1<<32-(here-14), 1<<32-(here-8))
 		}
 		b = append(b, byte(ln>>24), byte(ln>>16), byte(ln>>8), byte(ln))
 		// body: a soup of plausible event bytes
